@@ -27,6 +27,9 @@ import (
 //	newtree <size> <hashes>      -> NewTree(size, hashes, current store)
 //	reopen all|<keep>            -> close the file, optionally truncate it to <keep> hashes, NewFileHashStore + NewTree
 //	incl <m> <n> / cons <m> <n> / leafpath <data> <m> <n> / mroot <n> / bits <n>
+//	recheck                      -> ok   (harness-side: results handed out earlier - saved states, proofs, paths - are
+//	                                      kept alive, must still read the same, and saved states must still reload)
+//	resume <n>                   -> ok   (harness-side: oracles on again after a crash scenario)
 //
 // Property oracles evaluated on the implementation's outputs (r.Viol): root = independent RFC 6962
 // reference; predicted root = reference root of the extended list; marshal round trip; generated
@@ -41,6 +44,71 @@ type mtree struct {
 	lh     []common.Uint256 // their leaf hashes
 	known  bool             // data/lh describe the current tree (false after unmarshal/newtree of foreign state)
 	nfiles int
+	held   []heldResult // results handed out earlier, kept alive (not copied) to see whether later calls disturb them
+	nheld  int
+}
+
+// heldResult is a value returned by the tree some time ago: the very slice that was returned (live) and a private
+// copy taken at that moment. A saved compact state (Marshal) additionally remembers what it must reload to.
+type heldResult struct {
+	what   string
+	live   []byte
+	liveH  []common.Uint256
+	copyB  []byte
+	copyH  []common.Uint256
+	size   uint32
+	hashes []common.Uint256
+	root   common.Uint256
+}
+
+func (f *mtree) hold(h heldResult) {
+	h.copyB = append([]byte{}, h.live...)
+	h.copyH = append([]common.Uint256{}, h.liveH...)
+	f.nheld++
+	if len(f.held) < 96 {
+		f.held = append(f.held, h)
+	} else if f.nheld%3 == 0 {
+		f.held[(f.nheld/3)%96] = h
+	}
+}
+
+// recheck: every result handed out earlier must still read as it did, and every saved compact state must still
+// reload to the tree it was taken from (checkpoints are kept while the tree moves on).
+func (f *mtree) recheck(r *hx.Run) string {
+	bad := 0
+	for _, h := range f.held {
+		if !bytes.Equal(h.live, h.copyB) || !eqHashes(h.liveH, h.copyH) {
+			bad++
+			r.Viol("C06:returned-value-changed-later:"+h.what,
+				fmt.Sprintf("a %s result returned earlier (%x...) reads differently after later calls on the same tree", h.what, firstBytes(h.copyB, h.copyH)))
+		}
+		if h.what == "marshal" {
+			t2 := merkle.NewTree(0, nil, nil)
+			err := t2.UnMarshal(h.live)
+			if err != nil || t2.TreeSize() != h.size || !eqHashes(t2.Hashes(), h.hashes) || t2.Root() != h.root {
+				bad++
+				r.Viol(fmt.Sprintf("C06:held-checkpoint-does-not-reload:n=%d", h.size),
+					fmt.Sprintf("the compact state saved at size %d and kept while the tree moved on no longer reloads to that tree (err=%v, size=%d)", h.size, err, t2.TreeSize()))
+			}
+		}
+	}
+	if bad > 0 {
+		return "BAD"
+	}
+	return "ok"
+}
+
+func firstBytes(b []byte, hs []common.Uint256) []byte {
+	if len(b) > 12 {
+		return b[:12]
+	}
+	if len(b) > 0 {
+		return b
+	}
+	if len(hs) > 0 {
+		return hs[0][:12]
+	}
+	return nil
 }
 
 func init() { families["mtree"] = func() hx.Family { return &mtree{} } }
@@ -58,6 +126,7 @@ func (f *mtree) Reset(r *hx.Run) {
 		os.Remove(f.path)
 	}
 	f.kind, f.tree, f.path, f.data, f.lh, f.known = "nil", merkle.NewTree(0, nil, nil), "", nil, nil, true
+	f.held, f.nheld = nil, 0
 }
 
 func classify(e interface{}) string { return "panic" }
@@ -91,6 +160,9 @@ func (f *mtree) Exec(r *hx.Run, op []string) string {
 	case "append":
 		d := hx.UnHex(op[1])
 		audit := f.tree.Append(d)
+		if len(f.lh)%5 == 0 && len(audit) > 0 {
+			f.hold(heldResult{what: "append-audit-path", liveH: audit})
+		}
 		f.data = append(f.data, d)
 		f.lh = append(f.lh, refLeaf(d))
 		root := f.tree.Root()
@@ -167,12 +239,16 @@ func (f *mtree) Exec(r *hx.Run, op []string) string {
 			r.Viol(fmt.Sprintf("C06:predict-mutates-tree:n=%d", len(f.lh)), "GetRootWithNewLeaves changed the tree or its store")
 		}
 		return hx.Hex(got[:])
+	case "recheck":
+		return f.recheck(r)
 	case "marshal":
 		b, _ := f.tree.Marshal()
+		f.hold(heldResult{what: "marshal", live: b, size: f.tree.TreeSize(), hashes: append([]common.Uint256{}, f.tree.Hashes()...), root: f.tree.Root()})
 		t2 := merkle.NewTree(0, nil, nil)
 		if err := t2.UnMarshal(b); err != nil || t2.TreeSize() != f.tree.TreeSize() || !eqHashes(t2.Hashes(), f.tree.Hashes()) || t2.Root() != f.tree.Root() {
 			r.Viol(fmt.Sprintf("C06:marshal-roundtrip:n=%d", f.tree.TreeSize()), fmt.Sprintf("UnMarshal(Marshal(tree)) differs from the tree (err=%v)", err))
 		}
+		f.recheck(r) // earlier checkpoints must have survived this Marshal call (failures go to r.Viol)
 		return hx.Hex(b)
 	case "unmarshal":
 		b := hx.UnHex(op[1])
@@ -243,6 +319,9 @@ func (f *mtree) Exec(r *hx.Run, op []string) string {
 		if err != nil {
 			return genErr(err)
 		}
+		if (m+n)%7 == 0 {
+			f.hold(heldResult{what: "inclusion-proof", liveH: proof})
+		}
 		if f.known && f.storeIntact() && int(n) <= len(f.lh) {
 			want := refPath(int(m), f.lh[:n])
 			if !eqHashes(proof, want) {
@@ -262,6 +341,9 @@ func (f *mtree) Exec(r *hx.Run, op []string) string {
 		proof := f.tree.ConsistencyProof(uint32(m), uint32(n))
 		if proof == nil && (m > n || uint64(f.tree.TreeSize()) < n || f.store == nil) {
 			return "nil"
+		}
+		if (m+n)%7 == 1 {
+			f.hold(heldResult{what: "consistency-proof", liveH: proof})
 		}
 		if f.known && f.storeIntact() && int(n) <= len(f.lh) && m >= 1 {
 			want := refProof(int(m), f.lh[:n])
@@ -284,6 +366,7 @@ func (f *mtree) Exec(r *hx.Run, op []string) string {
 		if err != nil {
 			return genErr(err)
 		}
+		f.hold(heldResult{what: "leaf-path", live: p})
 		if f.known && f.storeIntact() && int(n) <= len(f.lh) && bytes.Equal(d, f.data[m]) {
 			root := f.refRootAt(int(n))
 			v, e := merkle.MerkleProve(p, root[:])
@@ -382,7 +465,13 @@ func (f *mtree) storeLen() int {
 
 func (f *mtree) Gen(r *hx.Run) {
 	r.Rule("append sequences on memory / file / absent stores with leaves of length 0..40 (duplicates included); every tree size 0..N with root, frontier, store length; every (m,n) inclusion and consistency pair up to a bound plus sampled pairs on big trees; reopen of the hash file at every size, with truncated and over-long files; marshal round trips and malformed buffers; predicted roots for 0..6 extra leaves; distinct non-trivial = distinct (store kind, op kind, m, n / size) with n >= 2")
+	special := []int{0, 1, 31, 32, 33, 63, 64, 65, 66, 127, 128, 129, 255, 256, 1000}
+	nleaf := 0
 	leaf := func() string {
+		nleaf++
+		if nleaf%4 == 0 { // every length around the hash block / preimage buffer boundaries, in turn
+			return hx.Hex(r.Rng.Bytes(special[(nleaf/4)%len(special)]))
+		}
 		switch r.Rng.Intn(6) {
 		case 0:
 			return "-"
@@ -469,6 +558,8 @@ func (f *mtree) Gen(r *hx.Run) {
 		r.Do(fmt.Sprintf("leafpath 00 %d %d", 3, 3))
 		r.Do(fmt.Sprintf("leafpath 00 %d %d", 0, maxN+1))
 		r.Do(fmt.Sprintf("leafpath %s %d %d", "ffee", 1, 9)) // data that is not the leaf: the path is still produced
+		r.Do("marshal")
+		r.Do("recheck") // everything handed out during the case still reads as it did
 		r.Do("storeall")
 	}
 	// B: no store
@@ -501,6 +592,7 @@ func (f *mtree) Gen(r *hx.Run) {
 			r.Nontrivial(fmt.Sprintf("marshal/%d", n))
 		}
 	}
+	r.Do("recheck")
 	for i, m := range snaps {
 		if i%9 != 4 {
 			continue
@@ -638,6 +730,7 @@ func (f *mtree) Gen(r *hx.Run) {
 			r.Do("append " + leaf())
 			r.Do("state")
 		}
+		r.Do("recheck")
 		r.Nontrivial(fmt.Sprintf("reopen/%d/%d/%d", t%3, n, extra))
 	}
 	// F: bit helpers on boundary values
@@ -664,6 +757,7 @@ func (f *mtree) Gen(r *hx.Run) {
 		bl = append(bl, l)
 		r.Do("append " + l)
 		if sizeClass(n) != "odd" && sizeClass(n) != "even" {
+			r.Do("marshal") // checkpoint held while the tree grows
 			r.Do("state")
 			for k := 0; k < 4; k++ {
 				m := r.Rng.Intn(n)
@@ -683,6 +777,7 @@ func (f *mtree) Gen(r *hx.Run) {
 		r.Do(fmt.Sprintf("leafpath %s %d %d", bl[m], m, n))
 		r.Nontrivial(fmt.Sprintf("big/%d/%d", m, n))
 	}
+	r.Do("recheck")
 }
 
 // nearPow2 returns a size in [1, max] within 2 of a power of two.
